@@ -185,6 +185,8 @@ def run_pipeline(case):
     traj = sitesys.full_trajectory(case)
     tr = gcall(traj.transitions_between_sites, sitesys.sites(case), 'Li', site_radius=sitesys.radius_arg(case), site_inner_fraction=case['inner_fraction'])
     states = np.array(tr.states)  # a copy: the library must not change its own record either
+    for obj in (traj, tr.trajectory, tr.diff_trajectory):
+        cases.prelude(obj, case.get('prelude'))
     T, N = states.shape
     j = jumps_or_none(tr, case.get('residence', 0))
     info = {'labels': [case['lattice']['family']], 'site_frac': case['sites']['frac'], 'cell': case['lattice']['family'] + '/' + case['lattice']['orient']}
@@ -214,7 +216,7 @@ def run_history(case):
                      sites=sitesys.sites(case), events=events, states=states.copy(), inner_states=inner.copy())
     j = jumps_or_none(tr, case.get('residence', 0))
     info = {'labels': [case['lattice']['family']], 'site_frac': case['sites']['frac'], 'cell': case['lattice']['family'] + '/' + case['lattice']['orient']}
-    for _pass in range(2):
+    for _pass in range(1 if case.get('single_pass') else 2):
         check_all(tr, j, states, case['sites']['labels'], M, N, T, case['time_step'], case['temperature'], info, n_parts=case.get('n_parts', 2), bounds=case.get('bounds'))
     if j is not None:
         info['labels'].append('has-jumps')
@@ -285,6 +287,28 @@ def enum_case(tier, idx):
             'n_parts': 1 + idx % 2, 'residence': [0, 0, 1][idx % 3], 'bounds': [-0.2, 0.3] if idx % 2 else None}
 
 
+# ----------------------------------------------------------------------------- busy histories: hundreds to tens of thousands of moves between the same sites
+BUSY = {'quick': [520, 1400, 140000], 'thorough': [520, 1400, 140000, 300000]}
+
+
+def busy_size(tier):
+    return len(BUSY[tier]) * 2
+
+
+def busy_case(tier, idx):
+    """ping-pong between two sites with dwell 1 (count-matrix entries of ~T/2, beyond 255 / 65535), a second atom hopping 0 -> none -> 2 -> none"""
+    T = BUSY[tier][idx // 2]
+    t = np.arange(T)
+    a0 = (t % 2)                                  # 0,1,0,1,...
+    a1 = np.where(t % 4 == 0, 3, np.where(t % 4 == 2, 2, -1)) if idx % 2 else np.full(T, -1)
+    a1[0] = 2
+    states = np.stack([a0, a1], axis=1)
+    lat = gen.fixed_lattice('triclinic', 'lower')
+    coords = np.zeros((T, 2, 3)) + np.array([[0.2, 0.2, 0.2], [0.7, 0.7, 0.7]])[None]
+    return {'lattice': lat, 'sites': {'frac': [[0.1, 0.1, 0.1], [0.95, 0.1, 0.1], [0.5, 0.5, 0.5], [0.5, 0.9, 0.5]], 'labels': ['A', 'B', 'A', 'B']},
+            'states': states.tolist(), 'inner': states.tolist(), 'coords': coords.tolist(), 'time_step': 1e-15, 'temperature': 500.0, 'n_parts': (2 if T < 10000 else 10**9), 'residence': 0, 'single_pass': True}
+
+
 SUBS = [
     Sub(name='pipeline', kind='hyp', run=run_pipeline, strategy=pipeline_cases,
         rule='hopping trajectories (1-3 diffusers, 2-6 sites, >=2 labels) in all cells through transitions_between_sites and Jumps; matrices, counters, diffusivity (1-3 dims), occupancy, graph (with/without energy bounds), rates',
@@ -295,4 +319,7 @@ SUBS = [
     Sub(name='enum-histories', kind='enum', run=run_history, size=enum_size, case_at=enum_case, exhaustive=True,
         rule='complete enumeration: every one-atom (outer, inner) history over 3 sites labelled A, B, A of length 2..4 (quick) / 2..6 (thorough) in a monoclinic cell; all bookkeeping clauses',
         shards={'quick': 16, 'thorough': 16}),
+    Sub(name='busy-histories', kind='enum', run=run_history, size=busy_size, case_at=busy_case, exhaustive=True,
+        rule='small family, complete: histories of 520 / 1400 / 140 000 (300 000) frames in which one atom moves between the same two sites in every frame (count-matrix entries of 260 - 70 000 (150 000): beyond 8- and 16-bit counters) with / without a second atom hopping through "no site"; all bookkeeping clauses',
+        shards={'quick': 6, 'thorough': 8}),
 ]
